@@ -231,7 +231,7 @@ func genIdent(r *rand.Rand, forceMB bool) string {
 
 var strPieces = []string{"Hello", "world", " ", "  ", "#", "//", "# not a comment", "// neither", "é", "ポケモン", "Ж",
 	"→", "😀", "\\n", "\\p", "\\l", "{PLAYER}", "$", "`", "\t", "'", "123", "0x1F", "!", "?", ".", ",", ":", ";",
-	"(", ")", "[", "]", "{", "}", "==", "&&", "script", "if", "-5", "*", "é$", "I'm glad to sée"}
+	"(", ")", "[", "]", "{", "}", "==", "&&", "script", "if", "-5", "*", "é$", "I'm glad to sée", "\uFFFD", "caf\uFFFD", "\uFEFF", "\u2028", "\u00A0"}
 
 func genStrContent(r *rand.Rand) string {
 	n := r.IntN(6)
@@ -376,7 +376,7 @@ type sepEl struct {
 }
 
 var cmtPieces = []string{"comment", " ", "é", "ポケモン", "\"", "`", "#", "//", "script", "if (", "}", "0x1F", "→", "😀",
-	"\t", "== !=", "'", "TODO: fix", "\"unterminated", "`raw", "-5", "ascii\"x\""}
+	"\t", "== !=", "'", "TODO: fix", "\"unterminated", "`raw", "-5", "ascii\"x\"", "\uFFFD", "caf\uFFFD au lait", "\uFEFF", "\u2028", "\u00A0", "\u0085"}
 
 func genComment(r *rand.Rand, style string) string {
 	var sb strings.Builder
